@@ -49,6 +49,8 @@ MULTICAST_REPEAT_PARAMS = _UdpRepeatParams(500, 4, 50, 250, 500)
 # these time constants control the send-loop
 SEND_LOOP_IDLE_SLEEP = 0.1
 SEND_LOOP_BUSY_SLEEP = 0.01
+# an own message id is remembered this long after the latest possible transmission of the message
+OWN_MESSAGE_ID_GRACE = 10.0
 
 
 @dataclasses.dataclass(frozen=True)
@@ -91,6 +93,8 @@ class NetworkingThread:
         self._send_queue = queue.PriorityQueue(10000)
         self._read_queue = queue.Queue(10000)
         self._known_message_ids = collections.deque(maxlen=200)
+        self._own_message_ids = {}  # message id -> time when it can be forgotten; never evicted by received ids
+        self._own_message_ids_lock = threading.Lock()
         self._inbound_selector = selectors.DefaultSelector()
         self._outbound_selector = selectors.DefaultSelector()
         self.multi_in = self._create_multicast_in_socket(my_ip_address, multicast_port)
@@ -133,7 +137,22 @@ class NetworkingThread:
         self._logger.debug('adding outbound message with Id "%s" to sending queue',
                            msg.p_msg.header_info_block.MessageID)
         self._known_message_ids.appendleft(msg.p_msg.header_info_block.MessageID)
+        self._register_own_message_id(msg.p_msg.header_info_block.MessageID, repeat_params)
         self._repeated_enqueue_msg(OutgoingMessage(msg, addr, port), repeat_params)
+
+    def _register_own_message_id(self, message_id: str, repeat_params: _UdpRepeatParams):
+        """Remember an own id until all its transmissions are done (multicast loops them back).
+
+        Own ids are kept apart from the bounded list of received ids, foreign traffic must not evict them.
+        """
+        now = time.time()
+        # latest transmission: initial delay + first gap (<= max_delay) + further gaps (each <= upper_delay)
+        latest_ms = repeat_params.max_initial_delay_ms + repeat_params.repeat * max(repeat_params.max_delay_ms,
+                                                                                    repeat_params.upper_delay_ms)
+        with self._own_message_ids_lock:
+            for known_id in [k for k, forget_at in self._own_message_ids.items() if forget_at < now]:
+                del self._own_message_ids[known_id]
+            self._own_message_ids[message_id] = now + latest_ms / 1000.0 + OWN_MESSAGE_ID_GRACE
 
     def _repeated_enqueue_msg(self, msg: OutgoingMessage, delay_params: _UdpRepeatParams):
         if self._quit_send_event.is_set():
@@ -207,7 +226,7 @@ class NetworkingThread:
                                           ex)
                     else:
                         mid = received_message.p_msg.header_info_block.MessageID
-                        if mid in self._known_message_ids:
+                        if mid in self._known_message_ids or mid in self._own_message_ids:
                             self._logger.debug('incoming message already known: %s (from %r, Id %s).',
                                                received_message.action, addr, mid)
                             continue
